@@ -733,6 +733,7 @@ pub fn replay(v: &Value) {
             responders: cfg.responders.clone(),
             origin: cfg.origin_us,
             repoll: cfg.repoll,
+            endurance: 1,
         };
         println!("C13 check  : {:?}", crate::props::w3props::c13_check(&run, &sc));
     }
